@@ -11,7 +11,8 @@ nb_j = NB(n,i,1+j) (j < cn), bond b = D_n(i, nb_j) (minimum image, C02), theta =
   q_l        = sqrt(4 pi/(2l+1) sum_m |q_lm|^2)                                                               (eq. 4)
   s(i,j)     = Re(sum_m q_lm(i) conj q_lm(j)) / (|q(i)| |q(j)|);   count_i = #{j < cn : s(i,nb_j) > c}         (eq. 5)
   w_l        = sum_{m1+m2+m3=0} W3j(l,m1,m2,m3) Re(q_lm1 q_lm2 q_lm3),   w^_l = w_l (sum_m |q_lm|^2)^(-3/2)   (eq. 6, 7)
-  G_l, C_l   = the callee contracts of conditional_gr / time_correlation applied to the vector field q_lm (eq. 8, 9)
+  spatial_corr = frame mean of conditional_gr(frame n, q_lm[n], 'vector', ppp, rdelta): columns r, gr, gA;  G_l(r) = 4 pi/(2l+1) gA/gr (eq. 8)
+  time_corr    = time_correlation(trajectory, q_lm, dt) rescaled by 4 pi/(2l+1) and divided by its row 0:  C(k)/C(0)      (eq. 9, = 1 at t = 0)
 The m axis is index m + l of an axis of length 2l+1.  Y_lm is the definition of C08 (abstract function of l, m, polar,
 azimuth: this property needs only that sph_harm_l returns that table, plus the addition theorem for the bounds).
 """
@@ -27,33 +28,55 @@ MOD = "PyMatterSim.static.boo"
 CLS = "boo_3d"
 
 NOT_DECIDED = [
-    "boo_3d.spatial_corr and boo_3d.time_corr (eq. 8, 9: frame average of conditional_gr / rescaled time_correlation of the q_lm field): "
-    "not put under contract in this round (they need the C13 / C14 callee contracts); observed while reading: spatial_corr returns the "
-    "columns r, gr, gA of conditional_gr averaged over frames and applies neither the 4 pi/(2l+1) factor nor the division by g(r) of "
-    "eq. (8); time_corr is renormalised to 1 at t = 0, so the 4 pi/(2l+1) factor of eq. (9) cancels",
+    "eq. (8), (9) of docs/boo_3d.md as printed against the returned frames (documentation looseness, not judged a code defect; details in "
+    "design_notes/C09.md): spatial_corr returns the library's usual ingredients r, gr, gA (docs/gr.md: 'the spatial correlation function "
+    "is g_A(r)/g(r)', the golden test divides gA by gr itself) — no returned column is G_l(r), and the prefactor 4 pi/(2l+1) of eq. (8) is "
+    "never applied: G_l(r_b) = 4 pi/(2l+1) gA(b)/gr(b) (lemma eq(8): the quotient of the two returned frame means is the pair average "
+    "pooled over the frames); time_corr is normalised to exactly 1 at t = 0 (as its golden test and C14 say), whereas eq. (9) as printed "
+    "puts 4 pi/(2l+1) in front of an already normalised ratio (it would give C_l(0) = 4 pi/(2l+1)): the factor cancels in the code (lemma eq(9))",
+    "the values of conditional_gr and time_correlation themselves for a complex vector field of 2l+1 components: they enter through the "
+    "callee contracts; C13 proves conditional_gr's contract for complex vector fields with 2 or 3 components (the component loop is the same "
+    "numpy reduction for every width), C14 proves time_correlation's for a symbolic number of components; both callee units are re-verified "
+    "with this check",
     "0 <= q_l <= 1 and |s_ij| <= 1 as statements about the returned arrays for every neighbour count: proved as lemmas on the spec "
     "(Lagrange identity for l = 1..12; convexity identity, induction step and base for q_l); the induction over the number of bonds, "
     "the linearity of the m-sum and the addition theorem for l > 10 are not mechanised (no Lean lemma library in this build)",
     "reference values of perfect fcc/bcc/hcp/sc/icosahedral environments (instances, not a for-all statement); rotation invariance (C07)",
-    "values of the Wigner 3-j symbols (sympy) and w_l for degrees other than l = 2 (w_W_cap is proved for the concrete degree 2; the "
-    "loop over the (2l+1)^3 index triples is executed, not summarised); file layout of outputsij (np.savetxt with a format string "
-    "built from max_neighbors) in sij_ql_Ql",
+    "values of the Wigner 3-j symbols (sympy); w_l for degrees other than l = 2, 3, 4, 6 (w_W_cap is proved for these concrete degrees: the "
+    "loop over the (2l+1)^3 index triples of Wignerindex is executed, not summarised; for l = 8, 10, 12 the loop-step goals over the "
+    "resulting polynomials (hundreds of cubic terms) exceed the quick-tier solver budget; the replay runs l = 2, 4); file layout of "
+    "outputsij (np.savetxt with a format string built from max_neighbors) in sij_ql_Ql",
     "float32 storage of s_ij (A1: floats are reals; the replay compares s_ij with tolerance 2e-6); NaN for particles without neighbour "
-    "or with zero weight sum (excluded by the property's quantifier: every particle has >= 1 neighbour, positive weights)",
+    "or with zero weight sum (excluded by the property's quantifier: every particle has >= 1 neighbour, positive weights); bin membership "
+    "of pair distances within one ulp of a bin edge (C13); a time correlation whose lag-zero value is exactly 0 (precondition, as in C14)",
 ]
 TRUSTED = [
     "callee contract of read_neighbors (C05): frame k of the file on the k-th call; (N, 1+MAXCN) array, column 0 = cn_i in [1, MAXCN] with "
     "MAXCN <= Nmax, columns 1..cn_i zero-based indices in [0, N) (int) resp. positive weights (float), zero padding beyond cn_i; the weight "
     "file has the coordination numbers of the neighbour file",
     "callee contract of sph_harm_l (C08 Dispatch): entry k of the returned table of length 2l+1 is Y_{l,k-l}(polar, azimuth); of remove_pbc (C02)",
+    "callee contract of conditional_gr (C13, complex vector field, conditiontype 'vector'): requires N >= 2, rdelta > 0, every box length >= "
+    "2 rdelta, invertible cell, ppp in {0,1}^3; returns a fresh frame with columns r, gr, gA and int(Lmin/2/rdelta) rows, r[b] = (b+1) rdelta "
+    "- rdelta/2, gr[b] / gA[b] = CGR(frame, b, column): the value conditional_gr returns for exactly the arguments checked at the call "
+    "(relational table; its closed form 2 V cnt/(N^2 shell_b) is C13's)",
+    "callee contract of time_correlation (C14, rank-3 series): frame (t, time_corr) with T rows, t[k] = (ts_k - ts_0) dt, time_corr[k] = "
+    "C(k)/C(0) with C the origin-averaged (evenly spaced frames, T >= 2) or first-origin autocorrelation Re sum_i sum_m A[n0+k,i,m] "
+    "conj A[n0,i,m], time_corr[0] = 1; requires C(0) != 0; writes its table when given an output file; which of the two spacings applies "
+    "is an unconstrained boolean here (both are covered)",
+    "object invariant established by boo_3d.__init__ (asserts): every frame has the particle number and the box lengths of frame 0; "
+    "smallqlm / largeQlm are the arrays returned by qlm_Qlm (arbitrary complex (T, N, 2l+1) fields in the units of the other methods)",
     "open() returns a handle whose only state is the number of frames consumed (pyvc/libext/C09.py); close() has no effect on the results",
     "np.arctan2, np.arccos element-wise (uninterpreted with axioms), np.linalg.norm, np.concatenate(axis=0) of equally shaped items, "
     "np.column_stack, np.ravel/reshape row-major, np.prod over a concrete axis, pandas DataFrame(2-D array, columns) / to_csv = write event, "
-    "sympy wigner_3j(...).evalf() = uninterpreted real function W3J of its six arguments",
+    "DataFrame arithmetic (0 + frame, frame + frame of equal columns and length, frame / scalar: element-wise per column), column `*=` / "
+    "`/=` in place, .loc[row, column] = the scalar stored there, sympy wigner_3j(...).evalf() = uninterpreted real function W3J of its six arguments",
     "Sigma rules of pyvc/axioms.py: unfold, extensionality, zero tail (same lower bound, summand 0 beyond the shorter range), zero body "
     "(counting sums); loop summaries (accumulation, guarded accumulation with hoisted guard / Kronecker-delta collapse, scatter store, "
-    "append of a fresh array, object attribute advanced per iteration) are validated by loop:init / loop:step obligations",
-    "sum_{j<cn} a = cn a and linearity of finite sums in the lemmas (equal weights, q_l bound)",
+    "append of a fresh array, object attribute advanced per iteration) are validated by loop:init / loop:step obligations; the written "
+    "invariant of the spatial_corr frame loop by init / step obligations generated from executions of the real body",
+    "solver accelerator used for w_W_cap: nonlinear products as uninterpreted functions (pyvc/solve.py _try_uf_abstraction; an unsat of the "
+    "abstraction is an unsat of the original)",
+    "sum_{j<cn} a = cn a and linearity of finite sums in the lemmas (equal weights, q_l bound); induction over the frames in lemma eq(8)",
 ]
 
 
@@ -1021,8 +1044,11 @@ class SpatialCorr(Unit):
         ctx.interp.summaries[CGR] = cgr
 
         def hint(interp, s, frame, st, lo, hi, item_fn):
+            import ast
             where = f"{frame.fname}:{s.lineno}"
-            var = "glresults"
+            # the accumulator: the local the loop body updates with an augmented assignment (glresults in the current source)
+            accs = [n.target.id for n in ast.walk(ast.Module(body=s.body, type_ignores=[])) if isinstance(n, ast.AugAssign) and isinstance(n.target, ast.Name)]
+            var = accs[0] if len(accs) == 1 else "glresults"
             B0 = rows_spec(tr, lo, rd)
 
             def inv(k):
@@ -1245,6 +1271,31 @@ def lemmas():
     hyp = sv.and_(lz >= 3, n2 >= 0, sv.cmp("<=", n2, sv.div(lz, sv.mul(4, sv.PI))))
     val = sv.mul(sv.div(sv.mul(4, sv.PI), lz), n2)
     out.append(("lemma:0<=q_l<=1:4pi/(2l+1)|q|^2-in-[0,1]", sv.implies(hyp, sv.and_(sv.cmp(">=", val, 0), sv.cmp("<=", val, 1))), {}))
+    # eq. (8) of docs/boo_3d.md against what spatial_corr returns.  By the C13 contract frame n contributes gA_n(b) = c_b W_n(b) and
+    # gr_n(b) = c_b P_n(b) with W_n(b) = sum over the pairs i<j of bin b of Re sum_m q_lm(i) conj q_lm(j), P_n(b) = the number of those
+    # pairs and c_b = 2 V/(N^2 shell_b) the same in every frame (N and the box lengths are frame-independent: __init__).  The method
+    # returns the frame means of gA and gr (proved above); their quotient is the pooled pair average
+    #     gA(b)/gr(b) = sum_n W_n(b) / sum_n P_n(b)  =  (2l+1)/(4 pi) G_l(r_b)  of eq. (8):
+    # the constant leaves the frame sums (induction over the frames: base + step) and cancels together with 1/T.
+    I1, R1 = z3.IntSort(), z3.RealSort()
+    Wn, Pn = z3.Function("W_frame", I1, R1), z3.Function("P_frame", I1, R1)
+    cb, kf = sv.real("c_b"), sv.integer("k_frames")
+
+    def lin(fn, n):
+        return sv.cmp("==", Sum(0, n, lambda t: sv.mul(cb, sv.SV(fn(sv.znum(t))))), sv.mul(cb, Sum(0, n, lambda t: sv.SV(fn(sv.znum(t))))))
+    for nm, fn in (("gA", Wn), ("gr", Pn)):
+        out.append((f"lemma:eq(8):{nm}:constant-leaves-the-frame-sum:base", lin(fn, 0), {}))
+        out.append((f"lemma:eq(8):{nm}:constant-leaves-the-frame-sum:step", sv.implies(sv.and_(kf >= 0, lin(fn, kf)), lin(fn, A.simp(sv.add(kf, 1)))), {}))
+    SW, SP, Tn = sv.real("sum_W"), sv.real("sum_P"), sv.real("T_frames")
+    hyp = sv.and_(Tn >= 1, sv.cmp("!=", cb, 0), sv.cmp("!=", SP, 0))
+    out.append(("lemma:eq(8):gA/gr=pooled-pair-average(sum_n-W_n/sum_n-P_n)",
+                sv.implies(hyp, sv.cmp("==", sv.mul(sv.div(sv.mul(cb, SW), Tn), SP), sv.mul(sv.div(sv.mul(cb, SP), Tn), SW))), {}))
+    # eq. (9): the prefactor 4 pi/(2l+1) multiplies numerator and (through the normalisation by the lag-zero value) denominator: it cancels
+    fpre, Ck, C0 = sv.real("f_4pi_over_2l+1"), sv.real("C_k"), sv.real("C_0")
+    out.append(("lemma:eq(9):prefactor-cancels-under-normalisation-at-lag-0",
+                sv.implies(sv.and_(sv.cmp("!=", fpre, 0), sv.cmp("!=", C0, 0)),
+                           sv.and_(sv.cmp("==", sv.mul(sv.mul(fpre, Ck), C0), sv.mul(sv.mul(fpre, C0), Ck)),     # (f C_k)/(f C_0) = C_k/C_0, cross-multiplied
+                                   sv.cmp("==", sv.div(sv.mul(fpre, C0), sv.mul(fpre, C0)), 1))), {}))
     # equal weights reproduce the unweighted result: w_j = a for all j  =>  w_j / (cn a) = 1/cn   (sum_{j<cn} a = cn a)
     aw, cnr = sv.real("a_w"), sv.real("cn")
     out.append(("lemma:equal-weights=>omega_j=1/cn", sv.implies(sv.and_(aw > 0, cnr >= 1), sv.cmp("==", sv.div(aw, sv.mul(cnr, aw)), sv.div(1, cnr))), {}))
@@ -1270,17 +1321,29 @@ from contracts.common import callee_units as _callee_units   # noqa: E402
 UNITS = UNITS + _callee_units([('C02', None), ('C05', {'read_neighbors'}), ('C08', None), ('C13', {'conditional_gr'}), ('C14', None)], UNITS)
 
 MANIFEST = {
-    "text": "boo_3d.qlm_Qlm, ql_Ql, sij_ql_Ql, w_W_cap and utils.funcs.Wignerindex (real ASTs, re-read every run; symbolic frame number T, "
-            "particle number N, degree l >= 1 (w_W_cap: l = 2), neighbour arrays, cells, masks, Nmax, threshold c): q_lm(n,i) returned by "
+    "text": "boo_3d.qlm_Qlm, ql_Ql, sij_ql_Ql, w_W_cap, spatial_corr, time_corr and utils.funcs.Wignerindex (real ASTs, re-read every run; "
+            "symbolic frame number T, particle number N, degree l >= 1 (w_W_cap: l = 2, 3, 4, 6), neighbour arrays, cells, masks, Nmax, threshold "
+            "c, rdelta, dt): q_lm(n,i) returned by "
             "qlm_Qlm equals (1/cn) sum_j Y_lm(arccos(b_z/|b|), atan2(b_y,b_x)) over the minimum-image bonds of the neighbour file "
             "(unweighted) resp. sum_j (w_j / sum_j' w_j') Y_lm (weight file; the code's sum over the zero-padded row equals the sum of the "
             "cn_i weights), frame k of both files is used for snapshot k, Q_lm = (q_i + sum_j q_j)/(1+cn_i) over the returned q; index "
             "bounds and loop summaries of the three nested loops; ql_Ql = sqrt(4 pi/(2l+1) sum_m |q_lm|^2) >= 0 for both fields, saved "
             "file = returned array; sij_ql_Ql returns per frame [id, cn, s_ij (j < cn), 0 padding] with s_ij = Re(q_i.conj q_j)/(|q_i||q_j|), "
             "the csv frame holds id, #{j < cn_i : s_ij > c}, cn_i at row n*N+i, the ValueError branch is unreachable; w_l and w^_l (eq. 6, 7) "
-            "with Wignerindex executed from its body; lemmas: Lagrange identity => |s_ij| <= 1 for l = 1..12, convexity identity + induction "
-            "step + base => 0 <= q_l <= 1, equal weights => omega_j = 1/cn.",
-    "note": "floats as reals (A1, s_ij is stored in float32); callee contracts of read_neighbors (C05), sph_harm_l (C08), remove_pbc (C02); "
-            "Y_lm abstract (only the table layout is used); positive weights and cn_i >= 1 as the property states; spatial_corr / time_corr "
-            "not under contract; on the unfixed /repo the obligation csv:count fails for c < 0 (padding counted, design_notes/C09.fix-1.diff)",
+            "with Wignerindex executed from its body; spatial_corr (both fields, with / without csv): every call of conditional_gr passes the "
+            "snapshot of frame n, the q_lm (Q_lm) rows of the same frame, conditiontype 'vector', the object's ppp and the rdelta argument and "
+            "meets the callee's preconditions (named clause), the frame loop satisfies the written invariant glresults(k) = sum_{t<k} "
+            "conditional_gr(frame t) (init from the real pre-state 0, step), the returned frame has columns r, gr, gA and int(Lmin/2/rdelta) "
+            "rows, r = bin centre, gr / gA = (1/T) sum_n of the callee's tables, bin by bin, csv = returned columns (%.8f); time_corr (both "
+            "fields, with / without csv): time_correlation is called with the trajectory, the selected field and dt, the returned frame has "
+            "T rows, t[k] = (ts_k - ts_0) dt untouched, time_corr[k] = C(k)/C(0) (the factor 4 pi/(2l+1) cancels), time_corr[0] = 1, the "
+            "divisor 4 pi/(2l+1) C(0)/C(0) is non-zero, csv = returned columns; the units of conditional_gr (C13) and time_correlation (C14) are "
+            "re-verified with this check; lemmas: Lagrange identity => |s_ij| <= 1 for l = 1..12, convexity identity + induction "
+            "step + base => 0 <= q_l <= 1, equal weights => omega_j = 1/cn, eq. (8): gA/gr of the returned frame means = pair average pooled "
+            "over the frames, eq. (9): the prefactor cancels under the normalisation at lag 0.",
+    "note": "floats as reals (A1, s_ij is stored in float32); callee contracts of read_neighbors (C05), sph_harm_l (C08), remove_pbc (C02), "
+            "conditional_gr (C13), time_correlation (C14); Y_lm abstract (only the table layout is used); positive weights and cn_i >= 1 as the "
+            "property states; preconditions of the correlation methods: N >= 2, rdelta > 0, box lengths >= 2 rdelta, lag-zero correlation "
+            "non-zero; object invariant of __init__ (equal box lengths and particle numbers in all frames) assumed; eq. (8)/(9) as printed "
+            "carry a prefactor 4 pi/(2l+1) that the returned frames do not (documentation looseness, see NOT_DECIDED / design_notes/C09.md)",
 }
